@@ -369,7 +369,7 @@ def run_scenario(sc, exe, child_janet=None, timeout=180, keep=False, env_extra=N
             pay.append(b)
             with open(os.path.join(d, "p%d" % i), "wb") as f:
                 f.write(b)
-        params = {"dir": d, "streams": sc["streams"], "payloads": ["p%d" % i for i in range(len(pay))],
+        params = {"dir": d, "maxsink": 2 * sum(sc["payload_sizes"]) + 1000000, "streams": sc["streams"], "payloads": ["p%d" % i for i in range(len(pay))],
                   "fibers": [{"name": fb["name"], "prog": kw(fb["prog"])} for fb in sc["fibers"]]}
         with open(os.path.join(d, "params.jdn"), "w") as f:
             f.write(jdn(params))
@@ -445,6 +445,9 @@ def oracle(sc, res):
         fails.append(("crash:signal%d" % -res["rc"], "interpreter killed by signal %d" % -res["rc"]))
     if "ERROR: AddressSanitizer" in res["stderr"] or "runtime error:" in res["stderr"]:
         fails.append(("sanitizer", "sanitizer report: " + res["stderr"][-600:]))
+    if "OVERFLOW" in res["stdout"]:
+        fails.append(("bytes-extra:overflow", "a reader received more than twice the bytes ever written to the stream (duplicated delivery); stopped"))
+        return fails, ops
     # 1. every op completes or raises; none is dropped or left suspended
     hung = [o for o in ops if o["end"] is None]
     stuck = re.findall(r"^P fiber=(-?\d+) kind=(\w+) sid=(-?\d+) closed=(-?\d+) in_slot=(-?\d+) revents=(-?\d+)", trace, re.M)
